@@ -99,7 +99,19 @@ fn radius(n: f64) -> f64 {
 
 fn solve_case(ctx: &mut Ctx, idx: u64, rng: &mut Rng, quick: bool) {
     // games with chance infosets and hidden information, small enough for long logged runs
-    let (desc, tree) = match rng.below(6) {
+    let many_chance = rng.chance(0.25);
+    let (desc, tree) = match if many_chance { 99 } else { rng.below(6) } {
+        99 => {
+            // many chance infosets (mostly one per node) for the parallel solvers: how cached
+            // samples are reset between passes depends on their number and on the thread count
+            let mut par = gen::GenParams::random(rng, 2);
+            par.p_chance = 0.4;
+            par.p_shared_chance = *rng.pick(&[0.0, 0.0, 0.5]);
+            par.p_term = *rng.pick(&[0.0, 0.05]);
+            par.max_depth = rng.range(4, 8);
+            par.node_budget = rng.range(80, 300);
+            (format!("g1-many-chance(depth<={},budget={},w={})", par.max_depth, par.node_budget, par.weight_family), gen::random_tree(rng, &par))
+        }
         0 => ("kuhn3".to_string(), gen::kuhn(3, true)),
         1 => ("kuhn4_two_chance".to_string(), gen::kuhn(4, false)),
         2 => ("mini_leduc".to_string(), gen::mini_leduc()),
@@ -121,8 +133,12 @@ fn solve_case(ctx: &mut Ctx, idx: u64, rng: &mut Rng, quick: bool) {
     };
     let method = gen::METHODS[rng.below(3)];
     let params = *rng.pick(&[ParamSpec::None, ParamSpec::Vanilla, ParamSpec::CfrPlus, ParamSpec::Lcfr]);
-    let iters = if quick { *rng.pick(&[300u64, 1000]) } else { *rng.pick(&[1000u64, 2000, 4000]) };
-    let threads = *rng.pick(&[1usize, 1, 1, 3]);
+    let iters = if many_chance { *rng.pick(&[30u64, 100, 300]) } else if quick { *rng.pick(&[300u64, 1000]) } else { *rng.pick(&[1000u64, 2000, 4000]) };
+    let threads = if many_chance { *rng.pick(&[2usize, 2, 3, 4, 8]) } else { *rng.pick(&[1usize, 1, 1, 3]) };
+    if many_chance {
+        ctx.count("runs_on_games_with_many_chance_infosets", 1);
+        ctx.max("max_chance_infosets_in_one_game", prep.dump.chance_probs.len() as f64);
+    }
     let production = rng.chance(0.5);
     let seed = rng.next();
     let cfg = Cfg { method, iters, max_reg: 0.0, threads, params };
@@ -231,7 +247,7 @@ pub fn run(ctx: &mut Ctx) {
         }
     });
     ctx.finish(crate::report::extra(
-        "cases = (1) sampler queries: probability vectors of length 1-8 with dyadic entries (exact cumulative sums, zeros included) x uniform variates k*2^-53 placed at every cumulative boundary +-{1,2,2^13,2^30,2^43} units and at random; the production categorical sampler (via hook multinomial_index with an RNG that yields exactly that variate) must return j whenever the variate lies strictly inside the j-th cumulative interval; with dyadic probabilities both sides compute exactly, so only a variate exactly on a boundary is don't-care. (2) logged solves of 300-4000 iterations on Kuhn, Leduc-like, rare-chance and G1 games with shared chance infosets, all methods, threads {1,3}, production or seeded randomness: per pass the O3 step checker enforces at most one draw per (site, infoset, pass), draws only where the method allows (none in Full, no player draws in Sampled, only the non-updating player in External), presented weights = declared normalised chance weights resp. the player's current strategy, draws only for infosets the sampled traversal reaches, and visits (H4) exactly on the tree the draws select; over the run the outcome counts per chance infoset stay within the Hoeffding radius sqrt(n ln(2e12)/2) of n*p and the player-site martingales within the Azuma radius. distinct = hash(probabilities, variate) resp. hash(tree, configuration, seed); non-trivial = more than one outcome resp. at least one sampling site.",
+        "cases = (1) sampler queries: probability vectors of length 1-8 with dyadic entries (exact cumulative sums, zeros included) x uniform variates k*2^-53 placed at every cumulative boundary +-{1,2,2^13,2^30,2^43} units and at random; the production categorical sampler (via hook multinomial_index with an RNG that yields exactly that variate) must return j whenever the variate lies strictly inside the j-th cumulative interval; with dyadic probabilities both sides compute exactly, so only a variate exactly on a boundary is don't-care. (2) logged solves of 300-4000 iterations on Kuhn, Leduc-like, rare-chance and G1 games with shared chance infosets, all methods, threads {1,3}, plus (a quarter of the runs) G1 games of 80-300 nodes with up to dozens of chance infosets under threads {2,3,4,8} for 30-300 iterations, production or seeded randomness: per pass the O3 step checker enforces at most one draw per (site, infoset, pass), draws only where the method allows (none in Full, no player draws in Sampled, only the non-updating player in External), presented weights = declared normalised chance weights resp. the player's current strategy, draws only for infosets the sampled traversal reaches, and visits (H4) exactly on the tree the draws select; over the run the outcome counts per chance infoset stay within the Hoeffding radius sqrt(n ln(2e12)/2) of n*p and the player-site martingales within the Azuma radius. distinct = hash(probabilities, variate) resp. hash(tree, configuration, seed); non-trivial = more than one outcome resp. at least one sampling site.",
         &["frequency tests have false-alarm probability 1e-12 each", "seeded mode feeds the production samplers from a SplitMix64 stream keyed per (seed, site, infoset, pass)"],
     ));
 }
